@@ -816,6 +816,477 @@ fn case_h2_h1(ctx: &mut Ctx, tls: &mut TlsCtx, rng: &mut Rng, req_len: usize, re
     case
 }
 
+// ------------------------------------ h2front: TLS HTTP/2 client -> HTTP/1.1 backend (quick) --
+
+/// one DATA frame of the scripted client
+#[derive(Clone, Debug)]
+struct DataSpec {
+    content: Vec<u8>,
+    /// `Some(n)`: PADDED flag, pad-length byte `n`, `n` zero bytes of padding
+    pad: Option<u8>,
+    end_stream: bool,
+}
+
+#[derive(Clone, Debug)]
+enum WinScript {
+    None,
+    /// initial window `iw0`; once the response has stalled on it: SETTINGS `iw1` (< iw0), wait for
+    /// the ACK, then WINDOW_UPDATE(stream, `wu`) - the true window is then `iw1 - iw0 + wu`
+    Shrink { iw0: u32, iw1: u32, wu: u32 },
+    /// initial window 0; once the response HEADERS arrived: SETTINGS `iw1`
+    Grow { iw1: u32 },
+}
+
+#[derive(Clone, Debug)]
+struct H2Spec {
+    name: &'static str,
+    declare_length: bool,
+    frames: Vec<DataSpec>,
+    trailers: bool,
+    win: WinScript,
+    resp_len: usize,
+}
+
+struct Judged {
+    requests: Vec<(String, Vec<u8>)>,
+    /// `(class, detail)` of the first framing error, if any
+    error: Option<(String, String)>,
+    /// bytes after the last complete request
+    leftover: Vec<u8>,
+}
+
+/// strict RFC 9112 reading of everything the backend received on one connection
+fn judge_h1_requests(raw: &[u8]) -> Judged {
+    let mut j = Judged { requests: vec![], error: None, leftover: vec![] };
+    let mut pos = 0usize;
+    let line_end = |from: usize| find(&raw[from..], b"\r\n").map(|p| from + p);
+    while pos < raw.len() {
+        let Some(he) = find(&raw[pos..], b"\r\n\r\n") else {
+            j.leftover = raw[pos..].to_vec();
+            return j;
+        };
+        let head = String::from_utf8_lossy(&raw[pos..pos + he]).to_string();
+        let mut lines = head.split("\r\n");
+        let start = lines.next().unwrap_or("").to_string();
+        let parts: Vec<&str> = start.split(' ').collect();
+        if parts.len() != 3 || !parts[2].starts_with("HTTP/1.") || parts[0].is_empty() || !parts[0].bytes().all(|b| b.is_ascii_uppercase()) {
+            j.leftover = raw[pos..].to_vec();
+            return j;
+        }
+        let mut chunked = false;
+        let mut length: Option<usize> = None;
+        for l in lines {
+            let Some((n, v)) = l.split_once(':') else {
+                j.error = Some(("h2-h1-malformed-header-line".into(), format!("{l:?}")));
+                return j;
+            };
+            let v = v.trim();
+            if n.eq_ignore_ascii_case("transfer-encoding") {
+                chunked = v.eq_ignore_ascii_case("chunked");
+            } else if n.eq_ignore_ascii_case("content-length") {
+                length = v.parse().ok();
+            }
+        }
+        let mut p = pos + he + 4;
+        let mut body = vec![];
+        if chunked {
+            loop {
+                let Some(le) = line_end(p) else {
+                    j.error = Some(("h2-h1-request-incomplete-at-backend".into(), format!("no chunk-size line at offset {p} of {}", raw.len())));
+                    return j;
+                };
+                let size_line = &raw[p..le];
+                if size_line.is_empty() || !size_line.iter().all(|b| b.is_ascii_hexdigit()) {
+                    j.error = Some(("h2-h1-chunk-size-mismatch".into(), format!("offset {p}: expected a chunk-size line, found {:?}", String::from_utf8_lossy(&size_line[..size_line.len().min(40)]))));
+                    return j;
+                }
+                let n = usize::from_str_radix(std::str::from_utf8(size_line).unwrap(), 16).unwrap_or(usize::MAX);
+                p = le + 2;
+                if n == 0 {
+                    // trailer section, then the empty line
+                    loop {
+                        let Some(te) = line_end(p) else {
+                            j.error = Some(("h2-h1-request-incomplete-at-backend".into(), "no end of trailer section".into()));
+                            return j;
+                        };
+                        if te == p {
+                            p += 2;
+                            break;
+                        }
+                        if !raw[p..te].contains(&b':') {
+                            j.error = Some(("h2-h1-malformed-header-line".into(), format!("trailer {:?}", String::from_utf8_lossy(&raw[p..te]))));
+                            return j;
+                        }
+                        p = te + 2;
+                    }
+                    break;
+                }
+                if raw.len() < p + n + 2 {
+                    j.error = Some(("h2-h1-chunk-size-mismatch".into(), format!("chunk-size line says {n} bytes, only {} bytes follow in all", raw.len().saturating_sub(p))));
+                    return j;
+                }
+                if &raw[p + n..p + n + 2] != b"\r\n" {
+                    j.error = Some(("h2-h1-chunk-size-mismatch".into(), format!("chunk-size line says {n} bytes but they are not followed by CRLF (found {:?})", String::from_utf8_lossy(&raw[p + n..p + n + 2]))));
+                    return j;
+                }
+                body.extend_from_slice(&raw[p..p + n]);
+                p += n + 2;
+            }
+        } else if let Some(n) = length {
+            if raw.len() < p + n {
+                j.error = Some(("h2-h1-request-incomplete-at-backend".into(), format!("Content-Length {n}, {} body bytes", raw.len() - p)));
+                return j;
+            }
+            body.extend_from_slice(&raw[p..p + n]);
+            p += n;
+        }
+        j.requests.push((start, body));
+        pos = p;
+    }
+    j
+}
+
+fn padded_frame(sid: u32, d: &DataSpec) -> Vec<u8> {
+    match d.pad {
+        None => frame(0, d.end_stream as u8, sid, &d.content),
+        Some(n) => {
+            let mut p = vec![n];
+            p.extend_from_slice(&d.content);
+            p.extend(std::iter::repeat(0u8).take(n as usize));
+            frame(0, 8 | d.end_stream as u8, sid, &p)
+        }
+    }
+}
+
+/// run one scripted exchange; returns the case description
+fn case_h2front(ctx: &mut Ctx, tls: &mut TlsCtx, spec: &H2Spec, prop: &str, fails: &mut Vec<Fail>, dist: &mut BTreeMap<String, u64>) -> String {
+    use std::io::{Read, Write};
+    tls.n += 1;
+    let path = format!("/f{}", tls.n);
+    let cid = format!("f{}", tls.n);
+    let be = MockBackend::listen().unwrap();
+    ctx.w.add_cluster(cluster(&cid)).unwrap();
+    ctx.w.add_https_frontend(tls.front, "localhost", &path, &cid).unwrap();
+    ctx.w.add_backend(&cid, &format!("{cid}-0"), be.addr).unwrap();
+    let expected_body: Vec<u8> = spec.frames.iter().flat_map(|f| f.content.iter().copied()).collect();
+    let case = format!(
+        "h2front[{}] path={path} content-length={} frames={:?} trailers={} win={:?} resp={}",
+        spec.name,
+        spec.declare_length,
+        spec.frames.iter().map(|f| (f.content.len(), f.pad, f.end_stream)).collect::<Vec<_>>(),
+        spec.trailers,
+        spec.win,
+        spec.resp_len
+    );
+    *dist.entry(format!("h2front:{}", spec.name)).or_insert(0) += 1;
+    let resp_body = pattern(tls.n, spec.resp_len);
+    let resp_b = resp_body.clone();
+    let total = expected_body.len();
+    let declared = spec.declare_length;
+    let client_done = std::sync::Arc::new(std::sync::atomic::AtomicBool::new(false));
+    let done_b = client_done.clone();
+    // the backend records raw bytes; it answers once the request looks complete to a lenient eye
+    let bt = std::thread::spawn(move || -> Result<Vec<u8>, String> {
+        let mut b = be.accept(T).map_err(|e| format!("accept {e:?}"))?;
+        let until = Instant::now() + Duration::from_millis(1200);
+        loop {
+            let _ = b.read_some(Duration::from_millis(40));
+            let r = &b.received;
+            let done = match find(r, b"\r\n\r\n") {
+                None => false,
+                Some(h) => {
+                    if declared {
+                        r.len() >= h + 4 + total
+                    } else {
+                        r.ends_with(b"0\r\n\r\n") || (total == 0 && !String::from_utf8_lossy(&r[..h]).to_ascii_lowercase().contains("transfer-encoding"))
+                    }
+                }
+            };
+            if done || Instant::now() > until || b.eof || b.error.is_some() {
+                break;
+            }
+        }
+        let _ = b.read_until_quiet(Duration::from_millis(60), Duration::from_millis(300));
+        let mut out = format!("HTTP/1.1 200 OK\r\nContent-Length: {}\r\n\r\n", resp_b.len()).into_bytes();
+        out.extend_from_slice(&resp_b);
+        b.write_all(&out, Duration::from_secs(5)).map_err(|e| format!("backend write: {e:?}"))?;
+        let _ = b.read_until_quiet(Duration::from_millis(120), Duration::from_millis(600));
+        // keep the connection open until the client has its answer (a backend that closes while the
+        // client's window is shut is another scenario)
+        let until = Instant::now() + Duration::from_secs(7);
+        while !done_b.load(std::sync::atomic::Ordering::Relaxed) && Instant::now() < until {
+            let _ = b.read_some(Duration::from_millis(20));
+        }
+        Ok(b.received.clone())
+    });
+    let mut st = match tls_connect(tls.front, "localhost", &["h2"], Duration::from_millis(60)) {
+        Ok(s) => s,
+        Err(e) => {
+            client_done.store(true, std::sync::atomic::Ordering::Relaxed);
+            fails.push(Fail { class: "h2front-transfer-failed".into(), detail: format!("tls connect: {e:?}"), case: case.clone() });
+            return case;
+        }
+    };
+    let iw0: u32 = match spec.win {
+        WinScript::None => 1 << 20,
+        WinScript::Shrink { iw0, .. } => iw0,
+        WinScript::Grow { .. } => 0,
+    };
+    let mut hello = b"PRI * HTTP/2.0\r\n\r\nSM\r\n\r\n".to_vec();
+    let mut settings = vec![];
+    settings.extend_from_slice(&4u16.to_be_bytes());
+    settings.extend_from_slice(&iw0.to_be_bytes());
+    hello.extend_from_slice(&frame(4, 0, 0, &settings));
+    let mut enc = loona_hpack::Encoder::new();
+    let cl = total.to_string();
+    let mut hs: Vec<(&[u8], &[u8])> = vec![(b":method", b"POST"), (b":scheme", b"https"), (b":path", path.as_bytes()), (b":authority", b"localhost")];
+    if spec.declare_length {
+        hs.push((b"content-length", cl.as_bytes()));
+    }
+    if spec.trailers {
+        hs.push((b"te", b"trailers"));
+    }
+    let block = enc.encode(hs);
+    let no_frames = spec.frames.is_empty() && !spec.trailers;
+    hello.extend_from_slice(&frame(1, 4 | no_frames as u8, 1, &block));
+    for f in &spec.frames {
+        hello.extend_from_slice(&padded_frame(1, f));
+    }
+    if spec.trailers {
+        let tb = enc.encode(vec![(&b"x-checksum"[..], &b"abc123"[..])]);
+        hello.extend_from_slice(&frame(1, 4 | 1, 1, &tb));
+    }
+    let mut err: Option<String> = st.write_all(&hello).and_then(|_| st.flush()).err().map(|e| format!("write request: {e}"));
+    let mut recv_stream: i64 = iw0 as i64;
+    let mut cur_iw: i64 = iw0 as i64;
+    let mut pending_iw: Option<i64> = None;
+    let mut rx: Vec<u8> = vec![];
+    let mut pos = 0usize;
+    let mut got: Vec<u8> = vec![];
+    let mut end_streams = 0;
+    let mut headers_seen = false;
+    let mut status_ok = false;
+    // script state: 0 = waiting for the trigger, 1 = SETTINGS sent (waiting for ACK), 2 = done
+    let mut phase = 0;
+    let mut last_data = Instant::now();
+    let mut settings_acked_at: Option<Instant> = None;
+    let mut got_after_ack = 0usize;
+    let mut window_fail: Option<String> = None;
+    let deadline = Instant::now() + Duration::from_secs(6);
+    while err.is_none() && end_streams == 0 && Instant::now() < deadline {
+        let mut buf = [0u8; 16384];
+        match st.read(&mut buf) {
+            Ok(0) => err = Some("connection closed by sozu".into()),
+            Ok(n) => rx.extend_from_slice(&buf[..n]),
+            Err(e) if e.kind() == std::io::ErrorKind::WouldBlock || e.kind() == std::io::ErrorKind::TimedOut => {}
+            Err(e) => err = Some(format!("read: {e}")),
+        }
+        let mut out = vec![];
+        while rx.len() - pos >= 9 {
+            let h = &rx[pos..pos + 9];
+            let len = ((h[0] as usize) << 16) | ((h[1] as usize) << 8) | h[2] as usize;
+            let (ty, fl) = (h[3], h[4]);
+            if rx.len() - pos - 9 < len {
+                break;
+            }
+            let payload = rx[pos + 9..pos + 9 + len].to_vec();
+            pos += 9 + len;
+            match ty {
+                4 if fl & 1 == 0 => out.extend_from_slice(&frame(4, 1, 0, &[])),
+                4 => {
+                    // ACK: our pending SETTINGS are in force at sozu from here on
+                    if let Some(v) = pending_iw.take() {
+                        recv_stream += v - cur_iw;
+                        cur_iw = v;
+                        settings_acked_at = Some(Instant::now());
+                        if let WinScript::Shrink { wu, .. } = spec.win {
+                            recv_stream += wu as i64;
+                            out.extend_from_slice(&frame(8, 0, 1, &wu.to_be_bytes()));
+                        }
+                        phase = 2;
+                    }
+                }
+                6 if fl & 1 == 0 => out.extend_from_slice(&frame(6, 1, 0, &payload)),
+                1 => {
+                    headers_seen = true;
+                    let mut dec = loona_hpack::Decoder::new();
+                    if let Ok(list) = dec.decode(&payload) {
+                        status_ok = list.iter().any(|(k, v)| k == b":status" && v == b"200");
+                    }
+                    if fl & 1 != 0 {
+                        end_streams += 1;
+                    }
+                }
+                0 => {
+                    let n = len as i64;
+                    recv_stream -= n;
+                    last_data = Instant::now();
+                    if settings_acked_at.is_some() {
+                        got_after_ack += len;
+                    }
+                    if recv_stream < 0 && n > 0 && window_fail.is_none() {
+                        let class_detail = format!("DATA of {n} bytes leaves the client's stream window at {recv_stream} (script {:?}, {} body bytes so far)", spec.win, got.len() + len);
+                        window_fail = Some(class_detail);
+                    }
+                    got.extend_from_slice(&payload);
+                    if fl & 1 != 0 {
+                        end_streams += 1;
+                    }
+                }
+                3 => err = Some(format!("RST_STREAM {payload:?}")),
+                7 => err = Some(format!("GOAWAY {:?}", &payload[4..8.min(payload.len())])),
+                _ => {}
+            }
+        }
+        // the window script
+        match spec.win {
+            WinScript::Shrink { iw1, .. } if phase == 0 && headers_seen && recv_stream == 0 && last_data.elapsed() > Duration::from_millis(80) => {
+                let mut sp = vec![];
+                sp.extend_from_slice(&4u16.to_be_bytes());
+                sp.extend_from_slice(&iw1.to_be_bytes());
+                out.extend_from_slice(&frame(4, 0, 0, &sp));
+                pending_iw = Some(iw1 as i64);
+                phase = 1;
+            }
+            WinScript::Grow { iw1 } if phase == 0 && headers_seen => {
+                let mut sp = vec![];
+                sp.extend_from_slice(&4u16.to_be_bytes());
+                sp.extend_from_slice(&iw1.to_be_bytes());
+                out.extend_from_slice(&frame(4, 0, 0, &sp));
+                pending_iw = Some(iw1 as i64);
+                phase = 1;
+            }
+            _ => {}
+        }
+        // after the scripted step has been observed for a while: open the window for good
+        if phase == 2 && settings_acked_at.map(|t| t.elapsed() > Duration::from_millis(1500)).unwrap_or(false) {
+            if let WinScript::Grow { .. } = spec.win {
+                if got_after_ack == 0 && window_fail.is_none() {
+                    window_fail = Some("grow".into());
+                }
+            }
+            recv_stream += 1 << 24;
+            out.extend_from_slice(&frame(8, 0, 1, &(1u32 << 24).to_be_bytes()));
+            phase = 3;
+        } else if phase == 2 && recv_stream == 0 && last_data.elapsed() > Duration::from_millis(150) && got_after_ack > 0 {
+            // the granted part arrived and sozu stopped at the limit: finish the transfer
+            recv_stream += 1 << 24;
+            out.extend_from_slice(&frame(8, 0, 1, &(1u32 << 24).to_be_bytes()));
+            phase = 3;
+        }
+        if !out.is_empty() {
+            let _ = st.write_all(&out).and_then(|_| st.flush());
+        }
+    }
+    client_done.store(true, std::sync::atomic::Ordering::Relaxed);
+    drop(st);
+    let raw = bt.join().unwrap_or(Err("backend thread".into()));
+    // ---- client-side window ledger
+    if let Some(d) = window_fail {
+        if d == "grow" {
+            fails.push(Fail { class: "h2-front-stalled-after-settings-grow".into(), detail: format!("initial window 0 raised by SETTINGS (acknowledged): no DATA within 1.5 s ({} body bytes before)", got.len()), case: case.clone() });
+        } else {
+            let class = if matches!(spec.win, WinScript::None) { "h2-front-stream-window-exceeded" } else { "h2-front-window-exceeded-after-settings" };
+            fails.push(Fail { class: class.into(), detail: d, case: case.clone() });
+        }
+    }
+    let framing_scope = prop != "C14";
+    // ---- what the backend saw
+    if framing_scope {
+        match &raw {
+            Err(e) => fails.push(Fail { class: "h2front-transfer-failed".into(), detail: e.clone(), case: case.clone() }),
+            Ok(raw) => {
+                let j = judge_h1_requests(raw);
+                let trailer_class = if spec.declare_length { "c03-trailers-after-length-body" } else { "c03-trailers-without-last-chunk" };
+                let mut push = |class: &str, detail: String| {
+                    let class = if spec.trailers { trailer_class } else { class };
+                    fails.push(Fail { class: class.into(), detail: format!("{detail}; backend bytes: {:?}", String::from_utf8_lossy(&raw[..raw.len().min(400)])), case: case.clone() });
+                };
+                if let Some((c, d)) = &j.error {
+                    push(c, d.clone());
+                }
+                if j.requests.len() > 1 {
+                    push("h2-h1-extra-request-at-backend", format!("{} requests reached the backend, the client sent one: {:?}", j.requests.len(), j.requests.iter().map(|r| r.0.clone()).collect::<Vec<_>>()));
+                } else if !j.leftover.is_empty() && j.error.is_none() {
+                    push("h2-h1-extra-bytes-at-backend", format!("{} bytes after the request", j.leftover.len()));
+                }
+                match j.requests.first() {
+                    Some((start, body)) => {
+                        if !start.starts_with(&format!("POST {path} ")) {
+                            push("h2-h1-body-corrupted", format!("request line {start:?}"));
+                        } else if *body != expected_body && j.error.is_none() {
+                            let at = body.iter().zip(expected_body.iter()).position(|(a, b)| a != b).unwrap_or(body.len().min(expected_body.len()));
+                            push("h2-h1-body-corrupted", format!("{} body bytes at the backend, {} sent, first difference at {at}", body.len(), expected_body.len()));
+                        }
+                    }
+                    None => {
+                        if j.error.is_none() {
+                            push("h2-h1-request-incomplete-at-backend", format!("no complete request in {} bytes", raw.len()));
+                        }
+                    }
+                }
+            }
+        }
+    }
+    // ---- what the client saw
+    let clean = fails.iter().all(|f| f.case != case);
+    if clean {
+        if let Some(e) = err {
+            fails.push(Fail { class: "h2front-transfer-failed".into(), detail: format!("{e}; {} response bytes", got.len()), case: case.clone() });
+        } else if end_streams == 0 {
+            fails.push(Fail { class: "h2front-response-stalled".into(), detail: format!("{} of {} response body bytes", got.len(), resp_body.len()), case: case.clone() });
+        } else if !status_ok {
+            fails.push(Fail { class: "h2front-transfer-failed".into(), detail: "status is not 200".into(), case: case.clone() });
+        } else if framing_scope || !matches!(spec.win, WinScript::None) {
+            cmp_body("response body at the TLS h2 client", &got, &resp_body, "h2front-response-body-differs", &case, fails);
+        }
+    }
+    case
+}
+
+fn h2front_specs(rng: &mut Rng, prop: &str) -> Vec<H2Spec> {
+    let d = |content: &[u8], pad: Option<u8>, end_stream: bool| DataSpec { content: content.to_vec(), pad, end_stream };
+    let mut v = vec![];
+    if prop != "C14" {
+        v.push(H2Spec { name: "plain", declare_length: false, frames: vec![d(b"hello world", None, true)], trailers: false, win: WinScript::None, resp_len: 5 });
+        v.push(H2Spec { name: "padded-mix", declare_length: false, frames: vec![d(&pattern(1, 300), Some(0), false), d(&pattern(2, 77), Some(7), false), d(&pattern(3, 1000), None, false), d(b"Z", Some(200), true)], trailers: false, win: WinScript::None, resp_len: 9 });
+        v.push(H2Spec { name: "pad255-then-empty-end", declare_length: false, frames: vec![d(b"A", Some(255), false), d(b"", None, true)], trailers: false, win: WinScript::None, resp_len: 0 });
+        v.push(H2Spec { name: "padded-empty-content", declare_length: false, frames: vec![d(b"", Some(10), false), d(&pattern(4, 20), Some(3), false), d(b"", Some(0), false), d(&pattern(5, 5), Some(1), true)], trailers: false, win: WinScript::None, resp_len: 3 });
+        // smuggling attempt: if the chunk-size line counted pad-length byte + padding (1 + 15), a backend would
+        // end the first request inside the second frame and read the rest as a new request
+        let evil = b"\r\n0\r\n\r\nGET /evil HTTP/1.1\r\nHost: localhost\r\n\r\n";
+        let mut c2 = b"XXXXXXXXXX".to_vec();
+        c2.extend_from_slice(evil);
+        v.push(H2Spec { name: "smuggle-attempt", declare_length: false, frames: vec![d(b"A", Some(15), false), d(&c2, None, true)], trailers: false, win: WinScript::None, resp_len: 2 });
+        v.push(H2Spec { name: "length-padded", declare_length: true, frames: vec![d(&pattern(6, 100), Some(9), false), d(&pattern(7, 50), Some(255), true)], trailers: false, win: WinScript::None, resp_len: 7 });
+        v.push(H2Spec { name: "length-empty-end", declare_length: true, frames: vec![d(&pattern(8, 2000), None, false), d(b"", None, true)], trailers: false, win: WinScript::None, resp_len: 1 });
+        v.push(H2Spec { name: "empty-body", declare_length: false, frames: vec![d(b"", None, true)], trailers: false, win: WinScript::None, resp_len: 4 });
+        for (k, declare) in [(0usize, false), (1, true)] {
+            let n = rng.range(2, 6) as usize;
+            let mut frames = vec![];
+            for i in 0..n {
+                let len = if rng.chance(1, 5) { 0 } else { rng.range(1, 3000) as usize };
+                let pad = match rng.below(3) {
+                    0 => None,
+                    1 => Some(rng.below(256) as u8),
+                    _ => Some(rng.below(4) as u8),
+                };
+                frames.push(d(&pattern(20 + k * 10 + i, len), pad, i + 1 == n));
+            }
+            v.push(H2Spec { name: if declare { "random-length" } else { "random" }, declare_length: declare, frames, trailers: false, win: WinScript::None, resp_len: rng.range(0, 200) as usize });
+        }
+    }
+    if prop == "C03" {
+        v.push(H2Spec { name: "trailers", declare_length: false, frames: vec![d(&pattern(9, 40), Some(5), false)], trailers: true, win: WinScript::None, resp_len: 2 });
+        v.push(H2Spec { name: "trailers-length", declare_length: true, frames: vec![d(&pattern(10, 40), None, false)], trailers: true, win: WinScript::None, resp_len: 2 });
+    }
+    if prop != "C03" {
+        v.push(H2Spec { name: "settings-shrink", declare_length: false, frames: vec![d(b"q", None, true)], trailers: false, win: WinScript::Shrink { iw0: 20000, iw1: 5000, wu: 16000 }, resp_len: 50000 });
+        v.push(H2Spec { name: "settings-grow", declare_length: false, frames: vec![d(b"q", None, true)], trailers: false, win: WinScript::Grow { iw1: 30000 }, resp_len: 50000 });
+    }
+    v
+}
+
 fn main() {
     silence_worker_panics();
     let args = parse_args();
@@ -869,6 +1340,32 @@ fn main() {
         ctx.w.stop();
         eprintln!("{case} frames={} err={:?}", rep.frames, rep.error);
         finish(&args, 1, &dist, &samples, &fails, &known_witnesses, t0);
+        return;
+    }
+    // ---- h2front family: TLS HTTP/2 client -> HTTP/1.1 backend, strict reader at the backend ----
+    let family = args.extra.get("family").cloned().unwrap_or_default();
+    {
+        let mut frng = Rng::new(args.seed ^ 0xf207);
+        match new_tls_listener(&mut ctx) {
+            Err(e) => fails.push(Fail { class: "rig-setup".into(), detail: e, case: "h2front".into() }),
+            Ok(mut t) => {
+                for spec in h2front_specs(&mut frng, &args.prop) {
+                    let case = case_h2front(&mut ctx, &mut t, &spec, &args.prop, &mut fails, &mut dist);
+                    evaluations += 1;
+                    if samples.len() < 3 {
+                        samples.push(json!({"case": case}));
+                    }
+                }
+            }
+        }
+        if !ctx.w.alive().is_alive() {
+            fails.push(Fail { class: "worker-died".into(), detail: format!("{:?}", ctx.w.exit_state()), case: "after h2front".into() });
+        }
+        dist.insert("h2front_wall_ms".into(), t0.elapsed().as_millis() as u64);
+    }
+    if family == "h2front" || args.prop == "C03" {
+        ctx.w.stop();
+        finish(&args, evaluations, &dist, &samples, &fails, &known_witnesses, t0);
         return;
     }
     // ---- fixed witnesses first (re-demonstrated on every run) ----
@@ -985,11 +1482,14 @@ fn finish(args: &verif_harness::Args, evaluations: u64, dist: &BTreeMap<String, 
     let mut out = vec![];
     // C14 reports the peer-limit and liveness classes; byte-exactness classes belong to C01
     let relevant = |class: &str| {
-        if args.prop == "C14" {
-            class.starts_with("h2c-") || class.starts_with("h2-front-") || class.starts_with("h2tls-h1-response-stalled") || class.starts_with("h1-h2c-") || class == "worker-died" || class == "rig-setup"
-        } else {
-            // C01: the h2c peer-limit ledger classes are C14's
-            !class.starts_with("h2c-") && !class.starts_with("h2-front-")
+        let setup = class == "worker-died" || class == "rig-setup";
+        match args.prop.as_str() {
+            // peer limits and liveness
+            "C14" => setup || class.starts_with("h2c-") || class.starts_with("h2-front-") || class.starts_with("h2tls-h1-response-stalled") || class.starts_with("h1-h2c-") || class == "h2front-response-stalled",
+            // request boundaries at the backend
+            "C03" => setup || class.starts_with("h2-h1-") || class.starts_with("c03-"),
+            // C01: byte-exactness and clean ends; the window-ledger classes are C14's, the trailer classes C03's
+            _ => !class.starts_with("h2c-") && !class.starts_with("h2-front-") && !class.starts_with("c03-"),
         }
     };
     for f in fails.iter().filter(|f| relevant(&f.class)) {
@@ -1010,12 +1510,13 @@ fn finish(args: &verif_harness::Args, evaluations: u64, dist: &BTreeMap<String, 
     if !args.out.is_empty() {
         std::fs::write(&args.out, serde_json::to_string_pretty(&res).unwrap()).unwrap();
     }
-    println!("e2ebody: {evaluations} transfers, {} failure(s) in {} class(es)", fails.len(), per.len());
+    let shown: Vec<&Fail> = fails.iter().filter(|f| relevant(&f.class)).collect();
+    println!("e2ebody: {evaluations} transfers, {} failure(s) in {} class(es) for {}", shown.len(), per.len(), args.prop);
     for (c, n) in &per {
         println!("FAIL oracle {c} x{n}");
     }
-    for f in fails.iter().take(8) {
+    for f in shown.iter().take(8) {
         println!("  {} :: {} :: {}", f.class, f.detail, f.case);
     }
-    std::process::exit(if fails.is_empty() { 0 } else { 1 });
+    std::process::exit(if shown.is_empty() { 0 } else { 1 });
 }
